@@ -217,7 +217,7 @@ def run(ctx: Ctx, rs: RuleSet, tier: str):
   rs.declare(rule, 'replace() substitutes matches and keeps every other '
              'Buildable object identical', 5)
   rp = ctx.func(f'{NS}.replace')
-  tr = rp.nested.get('traverse')
+  tr = ctx.p.nested_of(rp, 'traverse')
   if tr is None:
     raise AnalysisError('NodeSelection.replace.traverse not found')
   g = ctx.cfg(tr)
